@@ -159,8 +159,8 @@ def setup():
         if rc != 0:
             print(out[-3000:])
             return 2
-        rc, out, dt = leanstage.lake(["build"])
-        print(f"lake build rc={rc} {dt:.0f}s")
+        rc, out, dt = leanstage.lake(["build", "LekkerVerif", "LekkerVerif.All"])
+        print(f"lake build (all property files) rc={rc} {dt:.0f}s")
         if rc != 0:
             print(out[-3000:])
             return 2
